@@ -228,7 +228,7 @@ class Bundle:
         # Now sort out naming. We get two name-sources:
         # (a) the function-argument `name` and (b) the value's `name` attribute.
         # One or the other (and not both) must be set.
-        if name is None and val.name is None:  # Neither set, fail.
+        if not name and not val.name:  # Neither set (or empty), fail.
             msg = f"Anonymous attribute {val} cannot be added to Bundle {self.name}"
             raise RuntimeError(msg)
         if name is not None and val.name is not None:  # Both set, fail.
@@ -308,6 +308,11 @@ class Bundle:
         if key in ns:
             return ns[key]
         return object.__getattribute__(self, key)
+
+    def __delattr__(self, __name: str) -> None:
+        """Disable attribute deletion, as for Modules."""
+        msg = f"Cannot delete Bundle attribute {__name} of {self}"
+        raise RuntimeError(msg)
 
     def __call__(self, **kwargs):
         """Calls to Bundles return Bundle Instances"""
